@@ -220,6 +220,17 @@ def exec_s2i(ctx, prop, n=3, res="{1,2}", times="{3}", maxdeps=1, w=3, panics=0,
     validate_blocks(ctx, "ShredTrace", out, TRACE_INVS[prop], classify=classify_block)
 
 
+def async_stage(ctx, invs, count, extra=(), seed_off=0):
+    """Async dispatcher sessions (caller call sequences, background systems held inside run) judged by `invs`."""
+    out = ctx.fresh("as", "ndjson")
+    st = run_bin(ctx, "exec", ["async", "--seed", ctx.seed * 1000 + 31 + seed_off, "--count", count, "--calls", 12, "--out", out] + list(extra),
+                 timeout=1800)
+    ctx.cov["impl_runs"].append({"kind": "impl->spec async dispatcher sessions", "programs": st["programs"], "calls": st["calls"],
+                                 "events": st["events"], "args": [str(x) for x in extra]})
+    ctx.cov["traces_validated_against_impl"] += st["programs"]
+    validate_blocks(ctx, "ShredTrace", out, invs, classify=classify_block)
+
+
 def exec_scenarios(ctx, invs, progs, label):
     """Fixed programs (hand-written scenarios) run for real and validated."""
     inp = ctx.fresh("scn", "jsonl")
@@ -313,18 +324,21 @@ def check_C01(ctx):
     planner_family(ctx, "C01", qdeps=1)
     exec_family(ctx, "C01", mc=("flat",), mc_thorough=("flat2", "batch", "deps"))
     exec_s2i(ctx, "C01", maxforce=1500 if ctx.quick() else 17000)
+    async_stage(ctx, ["InvC01x"], 40 if ctx.quick() else 400, extra=["--ppanic", 0.3])
 
 
 def check_C02(ctx):
     planner_family(ctx, "C02")
     exec_family(ctx, "C02", extra=["--pdep", 0.5], mc=("deps",), mc_thorough=("flat2",))
     exec_s2i(ctx, "C02", maxforce=1500 if ctx.quick() else 17000)
+    async_stage(ctx, ["InvC02x"], 50 if ctx.quick() else 500, extra=["--ppanic", 0.35, "--pdep", 0.5, "--nmax", 18])
 
 
 def check_C03(ctx):
     planner_family(ctx, "C03", qdeps=1)
     exec_family(ctx, "C03", extra=["--pbarrier", 0.2], mc=("deps",), mc_thorough=("flat2",))
     exec_s2i(ctx, "C03", maxforce=1500 if ctx.quick() else 17000)
+    async_stage(ctx, ["InvC03x"], 40 if ctx.quick() else 400, extra=["--ppanic", 0.3, "--pbarrier", 0.2])
 
 
 def check_C04(ctx):
@@ -338,6 +352,8 @@ def check_C05(ctx):
     # running-time hints 1 and 3: the group-append path of the planner is part of the plans that are run
     # (only parallel mode is forced: the model lets dispatch_seq take the groups in any order, the code takes storage order)
     exec_s2i(ctx, "C05", res="{1}" if ctx.quick() else "{1,2}", times="{1,3}", modes='{"par"}', maxforce=2000 if ctx.quick() else 30000)
+    # asynchronous dispatch is a parallel dispatch too: nothing lost, nothing overtaken, values as computed by the spec
+    async_stage(ctx, ["InvC05", "InvC15"], 40 if ctx.quick() else 400)
 
 
 def check_C07(ctx):
